@@ -93,7 +93,7 @@ def gen_fa(rng, kind=None, max_states=5, max_symbols=3, max_trans=9, plain_symbo
         hashes = {k: v for k, v in hashes.items() if not k.startswith("Y:")} or None
     case = {"kind": kind, "valmode": valmode, "symmode": symmode, "states": states,
             "symbols": symbols, "hash": hashes, "hashmode": mode, "trans": trans, "starts": starts,
-            "finals": finals, "ctor": rng.chance(0.25), "ctor_all": rng.chance(0.5), "ctor_tf": rng.chance(0.12), "words_as_symbols": rng.chance(0.3), "words_form": rng.pick(["list", "list", "list", "tuple", "iter"]), "bulk": rng.chance(0.15),
+            "finals": finals, "ctor": rng.chance(0.25), "ctor_all": rng.chance(0.5), "ctor_tf": rng.chance(0.12), "words_as_symbols": rng.chance(0.3), "words_form": rng.pick(["list", "list", "list", "tuple", "iter"]), "bulk": rng.chance(0.15), "caller_sets": rng.chance(0.5),
             "extra_symbols": ([rng.pick(["x", "y"])] if rng.chance(0.12) else []),
             "extra_states": []}
     if rng.chance(0.18):
@@ -109,6 +109,12 @@ def gen_fa(rng, kind=None, max_states=5, max_symbols=3, max_trans=9, plain_symbo
             case["ghost_final"] = rng.pick(states)
         if rng.chance(0.4) and kind != "dfa":
             case["ghost_start"] = rng.pick(states)
+    if kind == "dfa" and trans and rng.chance(0.2):
+        # an edit the DFA must refuse (DuplicateTransitionError) and that must leave it as it was
+        p_, a_, q_ = rng.pick(trans)
+        others = [x for x in states if x != q_]
+        if a_ is not None and others:
+            case["refused"] = [p_, a_, rng.pick(others)]
     return case
 
 
@@ -252,7 +258,24 @@ def build(case):
         # every constructor argument: declared states (all of them) and the declared alphabet
         kw = {"states": {sval(case, s) for s in case["states"]},
               "input_symbols": {yval(case, s) for s in case["symbols"]}} if case.get("ctor_all") else {}
-        if case["kind"] == "dfa":
+        if case.get("caller_sets"):
+            # the caller hands over its own sets of ready-made State / Symbol objects -- one and the same set object for
+            # `states` and `final_states` when they coincide -- and empties them once the automaton is built: the
+            # constructor must have taken copies
+            from pyformlang.finite_automaton import State, Symbol
+            fin = {State(x) for x in finals}
+            sta = {State(x) for x in starts}
+            if kw:
+                kw = {"states": {State(x) for x in kw["states"]}, "input_symbols": {Symbol(x) for x in kw["input_symbols"]}}
+                if kw["states"] == fin:
+                    kw["states"] = fin
+            if case["kind"] == "dfa":
+                fa = cls(start_state=(State(starts[0]) if starts else None), final_states=fin, **kw)
+            else:
+                fa = cls(start_state=sta, final_states=fin, **kw)
+            for mine in [fin, sta] + list(kw.values()):
+                mine.clear()
+        elif case["kind"] == "dfa":
             fa = cls(start_state=(starts[0] if starts else None), final_states=set(finals), **kw)
         else:
             fa = cls(start_state=set(starts), final_states=set(finals), **kw)
@@ -285,6 +308,14 @@ def build(case):
         fa.remove_final_state(sval(case, gf))
     if gs is not None:
         fa.remove_start_state(sval(case, gs))
+    rf = case.get("refused")
+    if rf and case["kind"] == "dfa" and [rf[0], rf[1]] in [[t[0], t[1]] for t in case["trans"]] \
+            and rf not in case["trans"]:
+        from pyformlang.finite_automaton import DuplicateTransitionError
+        try:
+            fa.add_transition(sval(case, rf[0]), yval(case, rf[1]), sval(case, rf[2]))
+        except DuplicateTransitionError:
+            pass
     for s in case.get("extra_symbols", []):
         fa.add_symbol(yval(case, s))
     for s in case.get("extra_states", []):
@@ -388,12 +419,16 @@ def shrink_fa(case):
         yield mk(ghost_final=None)
     if case.get("ghost_start") is not None:
         yield mk(ghost_start=None)
+    if case.get("refused"):
+        yield mk(refused=None)
     if case.get("ctor_tf"):
         yield mk(ctor_tf=False)
     if case.get("bulk"):
         yield mk(bulk=False)
     if case.get("words_form", "list") != "list":
         yield mk(words_form="list")
+    if case.get("ctor") and case.get("caller_sets"):
+        yield mk(caller_sets=False)
     if case.get("ctor"):
         yield mk(ctor=False)
     if case.get("ctor_all"):
